@@ -162,7 +162,7 @@ func symFilter(G, E int) *gState {
 		prevExp = g.exp
 		ne := symLen(1, E)
 		for k := 0; k < ne; k++ {
-			g.events = append(g.events, &eventlogger.Event{Type: "gated", Payload: &gPayload{id: g.id}})
+			g.events = append(g.events, &eventlogger.Event{Type: "gated", CreatedAt: time.Unix(0, int64(nondetInt())), Payload: &gPayload{id: g.id}})
 		}
 		ge := &gatedEvent{id: g.id, exp: time.Unix(0, int64(g.exp))}
 		ge.events = append(ge.events, g.events...)
@@ -248,7 +248,7 @@ func H_C11_Process_gateable() {
 	id := nondetString()
 	verifAssume(id != "")
 	flush := nondetBool()
-	ev := &eventlogger.Event{Type: "gated", Payload: &gPayload{id: id, flush: flush}}
+	ev := &eventlogger.Event{Type: "gated", CreatedAt: time.Unix(0, int64(nondetInt())), Payload: &gPayload{id: id, flush: flush}}
 	// which open group (if any) has this id
 	hit := -1
 	for i := 0; i < s.n; i++ {
